@@ -563,62 +563,27 @@ Local Open Scope nat_scope.
 
 Definition parses (e : string) : bool := match parse_uint_hex64 e with Some _ => true | None => false end.
 
-Lemma last_app_cons : forall {A} (pre : list A) o old d, last (pre ++ o :: old) d = last (o :: old) d.
+(* parseEntriesIntoArrayValues (fixed): all entries parse, or nothing is stored *)
+Lemma parse_all_spec : forall es,
+  match parse_all es with
+  | Some vs => forallb parses es = true /\ map Some vs = map parse_uint_hex64 es
+               /\ List.length vs = List.length es /\ all_lt64 vs
+  | None => forallb parses es = false
+  end.
 Proof.
-  intros A pre. induction pre as [|p pre IH]; intros o old d; [reflexivity|].
-  cbn [app]. rewrite <- (IH o old d). cbn [last]. destruct (pre ++ o :: old) eqn:E; [|reflexivity].
-  destruct pre; discriminate.
+  induction es as [|e es IH]; cbn [parse_all forallb map].
+  - repeat split. constructor.
+  - assert (Hp : parses e = match parse_uint_hex64 e with Some _ => true | None => false end) by reflexivity.
+    rewrite Hp. clear Hp. destruct (parse_uint_hex64 e) as [v|] eqn:Ev; [|reflexivity].
+    destruct (parse_all es) as [vs|]; cbn [option_map andb].
+    + destruct IH as [Hf [Hm [Hl Hlt]]]. split; [exact Hf|]. split; [cbn [map]; rewrite Hm; reflexivity|].
+      split; [cbn; rewrite Hl; reflexivity|]. constructor; [exact (parse_uint_lt64 _ _ Ev)|exact Hlt].
+    + exact IH.
 Qed.
 
-(* parseEntriesIntoArrayValues, for ANY entries (one per word): never panics; words stay 64-bit;
-   the flag says whether every entry parsed; on failure the LAST word has not been written *)
-Lemma parse_entries_spec : forall es pre old, List.length old = List.length es -> all_lt64 (pre ++ old) ->
-  exists ws' ok, parse_entries (pre ++ old) (List.length pre) es = Ok (ws', ok)
-    /\ List.length ws' = List.length (pre ++ old) /\ all_lt64 ws'
-    /\ ok = forallb parses es
-    /\ (ok = false -> old <> [] /\ last ws' 0%N = last old 0%N)
-    /\ (ok = false -> parses (hd EmptyString es) = false -> ws' = pre ++ old)
-    /\ (ok = true -> exists vs, ws' = pre ++ vs /\ map Some vs = map parse_uint_hex64 es).
+Lemma copy_words_same_length : forall dst src, List.length src = List.length dst -> copy_words dst src = src.
 Proof.
-  induction es as [|e es IH]; intros pre old HL Hlt.
-  - destruct old; [|discriminate]. exists (pre ++ []), true. cbn [parse_entries forallb].
-    repeat split; try reflexivity; try assumption; try discriminate.
-    intros _. exists []. split; reflexivity.
-  - destruct old as [|o old]; [discriminate|]. cbn [List.length] in HL. injection HL as HL.
-    cbn [parse_entries forallb hd].
-    assert (Hp : parses e = match parse_uint_hex64 e with Some _ => true | None => false end) by reflexivity.
-    rewrite Hp. clear Hp. destruct (parse_uint_hex64 e) as [v|] eqn:Ev.
-    + assert (Hpre : List.length pre < List.length (pre ++ o :: old)) by (rewrite app_length; cbn; lia).
-      destruct (set_nth_ok (pre ++ o :: old) (List.length pre) v Hpre) as [ws1 [E1 [L1 Hn1]]].
-      assert (Hws1 : ws1 = (pre ++ [v]) ++ old).
-      { apply (nth_ext _ _ 0%N 0%N).
-        - rewrite L1, !app_length. cbn. lia.
-        - intros j Hj. rewrite Hn1. rewrite <- app_assoc. cbn [app].
-          destruct (Nat.eqb_spec j (List.length pre)) as [-> | Hne].
-          + rewrite app_nth2, Nat.sub_diag by lia. reflexivity.
-          + destruct (Nat.lt_ge_cases j (List.length pre)) as [L | G].
-            * rewrite !app_nth1 by exact L. reflexivity.
-            * rewrite !app_nth2 by exact G. destruct (j - List.length pre) as [|m] eqn:Em; [lia|]. reflexivity. }
-      rewrite E1. cbn [res_bind]. subst ws1.
-      assert (Hlt1 : all_lt64 ((pre ++ [v]) ++ old)).
-      { unfold all_lt64 in *. rewrite <- app_assoc. apply Forall_app in Hlt. destruct Hlt as [Hp Ho].
-        apply Forall_app. split; [exact Hp|]. cbn [app]. inversion Ho; subst. constructor; [|assumption].
-        apply (parse_uint_lt64 _ _ Ev). }
-      destruct (IH (pre ++ [v]) old HL Hlt1) as [ws' [ok [E' [L' [Hlt' [Hok [Hlast [_ Hall]]]]]]]].
-      replace (List.length (pre ++ [v])) with (S (List.length pre)) in E' by (rewrite app_length; cbn; lia).
-      exists ws', ok. split; [exact E'|]. split; [rewrite L', !app_length; cbn; lia|]. split; [exact Hlt'|].
-      split; [exact Hok|]. split; [|split].
-      * intro Hf. destruct (Hlast Hf) as [Hne Hl]. split; [discriminate|]. rewrite Hl.
-        destruct old; [congruence|reflexivity].
-      * intros _ Hd. discriminate.
-      * intro Ht. destruct (Hall Ht) as [vs [Hvs Hmap]]. exists (v :: vs). split.
-        -- rewrite Hvs, <- app_assoc. reflexivity.
-        -- cbn [map]. rewrite Ev, Hmap. reflexivity.
-    + exists (pre ++ o :: old), false. split; [reflexivity|]. split; [reflexivity|]. split; [exact Hlt|].
-      split; [reflexivity|]. split; [|split].
-      * intros _. split; [discriminate|]. apply last_app_cons.
-      * intros _ _. reflexivity.
-      * discriminate.
+  intros dst src H. unfold copy_words. rewrite <- H, firstn_all, H, skipn_all. apply app_nil_r.
 Qed.
 
 Lemma zero_from_spec : forall count ws i, all_lt64 ws -> i + count <= 64 * List.length ws ->
@@ -652,6 +617,16 @@ Qed.
 Definition decode_accepts (nw : nat) (s : string) : bool :=
   Nat.eqb (List.length (split_colon s)) nw && forallb parses (split_colon s).
 
+(* A rejected text leaves the archive EXACTLY as it was -- words, memo, everything (any archive, any text) *)
+Lemma decode_rejected_unchanged : forall a s,
+  decode_accepts (List.length (a_words a)) s = false -> decode a s = Ok (a, false).
+Proof.
+  intros a s Hr. unfold decode, decode_accepts in *. cbv zeta.
+  destruct (Nat.eqb (List.length (split_colon s)) (List.length (a_words a))); cbn [negb andb] in *; [|reflexivity].
+  pose proof (parse_all_spec (split_colon s)) as P. destruct (parse_all (split_colon s)); [|reflexivity].
+  destruct P as [Hf _]. congruence.
+Qed.
+
 (* Decode of ANY text into a well-formed archive: never panics, keeps the invariant, accepts exactly the texts
    with one parsable entry per word; what it then holds are the parsed words cut to the size *)
 Lemma decode_spec : forall a s, wf a ->
@@ -661,50 +636,23 @@ Lemma decode_spec : forall a s, wf a ->
           a_memo a' = EmptyString
           /\ exists vs, map Some vs = map parse_uint_hex64 (split_colon s)
                         /\ forall j, j < a_size a -> bit_at (a_words a') j = bit_at vs j)
-    /\ (decode_accepts (List.length (a_words a)) s = false ->
-          a_memo a' = a_memo a
-          /\ (decode_is_partial (List.length (a_words a)) s = false -> a_words a' = a_words a)).
+    /\ (decode_accepts (List.length (a_words a)) s = false -> a' = a).
 Proof.
-  intros a s Hwf. pose proof Hwf as [HL [Hlt Hz]]. unfold decode, decode_accepts. cbv zeta.
-  destruct (Nat.eqb_spec (List.length (split_colon s)) (List.length (a_words a))) as [Hc | Hc]; cbn [negb andb].
-  - destruct (parse_entries_spec (split_colon s) [] (a_words a) (eq_sym Hc) Hlt)
-      as [ws1 [ok [E1 [L1 [Hlt1 [Hok [Hfail [Hfirst Hall]]]]]]]].
-    cbn [app List.length] in E1, L1. rewrite E1. cbn [res_bind]. rewrite <- Hok.
-    destruct ok; cbn [negb].
-    + destruct (Hall eq_refl) as [vs [Hvs Hmap]]. cbn [app] in Hvs. subst ws1.
-      destruct (zero_out_unused_spec (a_size a) vs Hlt1) as [ws2 [E2 [L2 [Hlt2 Hb2]]]].
-      { rewrite L1, HL. apply nwords_bounds. }
-      rewrite E2. cbn [res_bind]. eexists. split; [reflexivity|]. cbn [a_words a_size a_memo].
-      split; [|split; [reflexivity|split]].
-      * unfold wf. cbn [a_words a_size]. split; [lia|]. split; [exact Hlt2|].
-        intros j Hj. rewrite Hb2. destruct (Nat.ltb_spec j (a_size a)); [lia|reflexivity].
-      * intros _. split; [reflexivity|]. exists vs. split; [exact Hmap|]. intros j Hj. rewrite Hb2.
-        destruct (Nat.ltb_spec j (a_size a)); [reflexivity|lia].
-      * discriminate.
-    + eexists. split; [reflexivity|]. cbn [a_words a_size a_memo].
-      destruct (Hfail eq_refl) as [Hne Hlast].
-      split; [|split; [reflexivity|split; [discriminate|]]].
-      * unfold wf. cbn [a_words a_size]. split; [lia|]. split; [exact Hlt1|].
-        intros j Hj. destruct (Nat.lt_ge_cases j (64 * List.length ws1)) as [Lj | Gj]; [|apply bit_at_overflow; exact Gj].
-        (* j lies in the last word, which the failed Decode has not written *)
-        assert (Hlen : List.length (a_words a) >= 1) by (destruct (a_words a); [congruence|cbn; lia]).
-        pose proof (nwords_bounds (a_size a)) as [_ Hnb].
-        assert (Hq : j / 64 = List.length (a_words a) - 1).
-        { assert (j / 64 < List.length (a_words a)) by (apply Nat.div_lt_upper_bound; lia).
-          assert (List.length (a_words a) - 1 <= j / 64) by (apply Nat.div_le_lower_bound; lia). lia. }
-        assert (Hnl : forall (l : list N), List.length l >= 1 -> nth (List.length l - 1) l 0%N = last l 0%N).
-        { induction l as [|x l IHl]; cbn [List.length]; [lia|]. intros _. destruct l as [|y l]; [reflexivity|].
-          cbn [List.length] in *. replace (S (S (List.length l)) - 1) with (S (S (List.length l) - 1)) by lia.
-          cbn [nth last]. apply IHl. lia. }
-        specialize (Hz j Hj). unfold bit_at in *. rewrite Hq in *.
-        rewrite <- L1 at 1. rewrite Hnl by lia. rewrite Hlast. rewrite <- Hnl by lia. exact Hz.
-      * intros _. split; [reflexivity|]. intro Hnp. apply Hfirst; [reflexivity|].
-        unfold decode_is_partial in Hnp. cbv zeta in Hnp. fold parses in Hnp.
-        rewrite Hc, Nat.eqb_refl, <- Hok in Hnp. cbn [negb andb] in Hnp.
-        destruct (split_colon s) as [|e es]; [reflexivity|]. cbn [hd]. unfold parses. 
-        destruct (parse_uint_hex64 e); [discriminate|reflexivity].
-  - exists a. split; [reflexivity|]. split; [exact Hwf|]. split; [reflexivity|]. split; [discriminate|].
-    intros _. split; reflexivity.
+  intros a s Hwf. destruct (decode_accepts (List.length (a_words a)) s) eqn:Hacc.
+  - pose proof Hwf as [HL [Hlt Hz]]. unfold decode, decode_accepts in *. cbv zeta.
+    apply andb_true_iff in Hacc. destruct Hacc as [Hc Hf]. rewrite Hc. cbn [negb]. apply Nat.eqb_eq in Hc.
+    pose proof (parse_all_spec (split_colon s)) as P. destruct (parse_all (split_colon s)) as [vs|]; [|congruence].
+    destruct P as [_ [Hm [Hl Hltv]]]. rewrite copy_words_same_length by lia.
+    destruct (zero_out_unused_spec (a_size a) vs Hltv) as [ws2 [E2 [L2 [Hlt2 Hb2]]]].
+    { rewrite Hl, Hc, HL. apply nwords_bounds. }
+    rewrite E2. cbn [res_bind]. eexists. split; [reflexivity|]. cbn [a_words a_size a_memo].
+    split; [|split; [reflexivity|split; [|discriminate]]].
+    + unfold wf. cbn [a_words a_size]. split; [lia|]. split; [exact Hlt2|].
+      intros j Hj. rewrite Hb2. destruct (Nat.ltb_spec j (a_size a)); [lia|reflexivity].
+    + intros _. split; [reflexivity|]. exists vs. split; [exact Hm|]. intros j Hj. rewrite Hb2.
+      destruct (Nat.ltb_spec j (a_size a)); [reflexivity|lia].
+  - exists a. rewrite (decode_rejected_unchanged a s Hacc). split; [reflexivity|]. split; [exact Hwf|].
+    split; [reflexivity|]. split; [discriminate|reflexivity].
 Qed.
 
 (* ------------------------------------------------------------------------------------------ *)
@@ -881,41 +829,35 @@ Proof.
     rewrite Hm in E. discriminate.
 Qed.
 
-Lemma step_memo : forall a o, wf a -> memo_ok a -> op_not_partial_decode (List.length (a_words a)) o = true ->
-  memo_ok (step a o).
+Lemma step_memo : forall a o, wf a -> memo_ok a -> memo_ok (step a o).
 Proof.
-  intros a o Hwf Hm Hnp. destruct o as [i b | | s]; cbn [step].
+  intros a o Hwf Hm. destruct o as [i b | | s]; cbn [step].
   - unfold set_value. destruct (Z.of_nat (a_size a) <=? i)%Z; [exact Hm|].
     destruct (set_value_unchecked (a_words a) i b); cbn [res_bind]; [left; reflexivity|exact Hm].
   - apply encoding_sound. exact Hm.
-  - cbn [op_not_partial_decode] in Hnp. apply negb_true_iff in Hnp.
-    destruct (decode_spec a s Hwf) as [a' [E [_ [_ [Hacc Hrej]]]]]. rewrite E.
+  - destruct (decode_spec a s Hwf) as [a' [E [_ [_ [Hacc Hrej]]]]]. rewrite E.
     destruct (decode_accepts (List.length (a_words a)) s).
     + left. apply (Hacc eq_refl).
-    + destruct (Hrej eq_refl) as [Hmm Hww]. unfold memo_ok. rewrite Hmm, (Hww Hnp). exact Hm.
+    + rewrite (Hrej eq_refl). exact Hm.
 Qed.
 
-Lemma run_memo : forall ops a, wf a -> memo_ok a ->
-  forallb (op_not_partial_decode (nwords (a_size a))) ops = true -> memo_ok (run a ops).
+Lemma run_memo : forall ops a, wf a -> memo_ok a -> memo_ok (run a ops).
 Proof.
-  induction ops as [|o ops IH]; intros a Hwf Hm Hnp; [exact Hm|].
-  cbn [forallb] in Hnp. apply andb_true_iff in Hnp. destruct Hnp as [Ho Hops].
-  unfold run. cbn [fold_left]. destruct (step_wf a o Hwf) as [H1 H2].
-  apply (IH (step a o) H1).
-  - apply step_memo; [exact Hwf|exact Hm|]. destruct Hwf as [HL _]. rewrite HL. exact Ho.
-  - rewrite H2. exact Hops.
+  induction ops as [|o ops IH]; intros a Hwf Hm; [exact Hm|].
+  unfold run. cbn [fold_left]. destruct (step_wf a o Hwf) as [H1 _].
+  apply (IH (step a o) H1). apply step_memo; assumption.
 Qed.
 
 (* memo soundness over histories: after ANY sequence of SetValue (any index, any value), Encoding() and Decode (any
-   text, except one that is rejected after overwriting some words) on a new archive of ANY size, what Encoding()
-   answers is the encoding of the bits held at that moment *)
-Lemma cache_sound : forall n ops, forallb (op_not_partial_decode (nwords n)) ops = true ->
+   text, accepted or rejected) on a new archive of ANY size, what Encoding() answers is the encoding of the bits
+   held at that moment *)
+Lemma cache_sound : forall n ops,
   let a := run (new_archive n) ops in
   snd (encoding a) = encode_words (a_words a) /\ wf a /\ a_size a = n.
 Proof.
-  intros n ops Hnp a. destruct (run_wf ops (new_archive n) (new_archive_wf n)) as [Hwf Hs].
+  intros n ops a. destruct (run_wf ops (new_archive n) (new_archive_wf n)) as [Hwf Hs].
   split; [|split; [exact Hwf|exact Hs]].
-  apply encoding_sound. apply run_memo; [apply new_archive_wf|left; reflexivity|exact Hnp].
+  apply encoding_sound. apply run_memo; [apply new_archive_wf|left; reflexivity].
 Qed.
 
 (* ------------------------------------------------------------------------------------------ *)
@@ -1032,9 +974,12 @@ Proof. intros n ops. exact (run_wf ops (new_archive n) (new_archive_wf n)). Qed.
 Lemma size0_not_roundtrip : decode (new_archive 0) (snd (encoding (of_bits []))) = Ok (new_archive 0, false).
 Proof. vm_compute. reflexivity. Qed.
 
-Lemma memo_stale_after_rejected_decode : exists n ops,
-  let a := run (new_archive n) ops in snd (encoding a) <> encode_words (a_words a).
-Proof. exists 65, [OpEncode; OpDecode "1:zz"; OpEncode]. vm_compute. discriminate. Qed.
+(* regression of the defect repaired by fix C09-1 (the former witness of a stale memo): a Decode rejected at its
+   second entry stores nothing, so the memoised text is still the encoding of what the archive holds *)
+Lemma rejected_decode_regression :
+  let a := run (new_archive 65) [OpEncode; OpDecode "1:zz"; OpEncode] in
+  snd (encoding a) = "0:0"%string /\ encode_words (a_words a) = "0:0"%string /\ a_words a = [0%N; 0%N].
+Proof. vm_compute. repeat split; reflexivity. Qed.
 
 Lemma build_packing : forall bs, build bs = Ok (of_bits bs) /\ wf (of_bits bs) /\ bits (of_bits bs) = bs.
 Proof. intro bs. exact (conj (build_is_of_bits bs) (of_bits_wf_bits bs)). Qed.
